@@ -10,8 +10,14 @@ CHECKS = {
             "Every produced notation of every observed execution is decoded by an independent per-type stack decoder and compared with the input pair set; exhaustive over all pairings of N<=8 (quick) / N<=10 (thorough) plus tens of thousands of random/hostile structures and balanced strings over 30 bracket types. Held-on-observed, not a proof."),
     "C02": ("contract on dot_bracket/convert_to_dot_bracket + exact branch-and-bound optimiser as reference model", "4.C02",
             "The objective value of the notation the real MILP path returns is compared (integers) with an independent exact optimum per conflict component, for every pairing up to N and random multi-stem knots where FCFS is sub-optimal."),
+    "C03": ("contract on annotator.find_pairs + dense O(n^2) H-bond/edge/torsion reference model with margins", "4.C03",
+            "Every reported pair and every candidate edge combination of every observed execution (corpus, rigid/jitter/thinning perturbations, threshold-sweeping two-residue placements) is judged by an independent dense evaluator; quantities within 1e-6 of a threshold are undecided."),
+    "C04": ("contract on annotator.find_stackings + dense stacking reference model with margins", "4.C04",
+            "Soundness and completeness of the stacking list against an O(n^2) evaluation of centroid distance, inter-normal angle and offset angle; placements sweep each quantity across its threshold."),
     "C07": ("contract on BpSeq.elements + independent decomposition reference model", "4.C07",
             "Every observed decomposition is compared with maximal stacked runs, hairpin pairs, loop closure and an interior-coverage count per unpaired nucleotide; exhaustive small scope + random."),
+    "C11": ("contracts on find_pairs/find_stackings + frozen Saenger/Zirbel tables + re-read CSV/JSON", "4.C11",
+            "Well-formedness clauses (duplicates, self, membership, orientation, sortedness, Saenger, BPh/BR donor contact and class, one class per pair) judged on every observed annotation including all NMR models."),
     "C12": ("recorded call histories on object pools checked step by step against a fresh-object model", "4.C12",
             "History monitor: after each public call on any pool object, all objects must still print/pair as at creation and the answer must equal a fresh copy's answer; all 2-step orders on hostile structures + random histories."),
     "C13": ("fault/configuration injection at the PuLP boundary; complete matrix enumeration", "4.C13",
@@ -31,7 +37,10 @@ CHECKS = {
 LEVEL_NOTE = {
     "C01": "trusts vmon/oracles/o2d.py decoder; CBC as installed; <=30 levels; ladder30 only through FCFS (CBC needs >20 min)",
     "C02": "trusts the branch-and-bound reference (cross-checked exhaustively against CBC up to N); components >14 stems undecided; HiGHS absent",
+    "C03": "frozen donor/acceptor/edge tables are the specification; three-atom base normal; one_letter_name trusted",
+    "C04": "offset-angle direction reading documented in DESIGN.md 4.C04 (sound: undirected, complete: directed)",
     "C07": "interior convention documented in DESIGN.md 4.C07; slices compared with the text elements itself used",
+    "C11": "frozen Saenger table checked reverse-symmetric at start-up; Zirbel classes frozen",
     "C12": "fresh-object model rebuilt from the text at creation; all_dot_brackets compared as a set",
     "C13": "HiGHS configuration is an interface-compatible stub delegating to CBC; faults injected at actualSolve/status",
     "C14": "hash seeds sampled, not enumerated; third-party libraries assumed deterministic given the seed",
